@@ -29,6 +29,7 @@ var sqlQuick = []Mix{
 	{Gen: "wl", N: 100000},
 	{Gen: "longtok", N: 20000},
 	{Gen: "nulpad"},
+	{Gen: "scale1", N: 288 << 10},
 }
 
 var sqlThorough = []Mix{
@@ -43,6 +44,7 @@ var sqlThorough = []Mix{
 	{Gen: "wl", N: 1500000},
 	{Gen: "longtok", N: 300000},
 	{Gen: "nulpad"},
+	{Gen: "scale1", N: 288 << 10}, {Gen: "scale", N: 70000},
 }
 
 func sqlPlan(quick, thorough []Mix) func(string, uint64) []core.Unit {
@@ -118,18 +120,46 @@ func genLongTokens(w *core.Worker, u core.Unit, emit func(core.Case)) {
 func c16() *core.Check {
 	return &core.Check{
 		ID: "C16",
-		Rule: "every SQL workload input (corpus, truncations, bounded-exhaustive atoms, sequences, mutation, whitelist shapes, long-token shapes) is tokenised to exhaustion in six modes through the accessor; each trace is checked against the ordering / slice / progress inequalities. " +
+		Rule: "every SQL workload input (corpus, truncations, bounded-exhaustive atoms, sequences, mutation, whitelist shapes, long-token shapes, every family at 288 KiB, few-token inputs of 128 KiB-16 MiB) is tokenised to exhaustion in six modes through the accessor; each trace is checked against the ordering / slice / progress inequalities. " +
 			"Non-trivial = the trace holds >= 2 tokens in some mode; distinct by input.",
-		Plan: sqlPlan(sqlQuick, sqlThorough),
-		Gen:  sqlGen,
+		Plan: func(tier string, seed uint64) []core.Unit {
+			us := sqlPlan(sqlQuick, sqlThorough)(tier, seed)
+			return append(us, gen.RangeUnits("hugetok", uint64(len(hugeSizes(tier))*4), 1, tier)...)
+		},
+		Gen: func(w *core.Worker, u core.Unit, emit func(core.Case)) {
+			if u.Gen == "hugetok" {
+				// request-body sized inputs made of very few tokens: the scan must
+				// still end exactly at the end of the input
+				sz := hugeSizes(u.Arg)
+				for i := u.Lo; i < u.Hi; i++ {
+					n := sz[int(i)/4]
+					switch i % 4 {
+					case 0:
+						emit(core.Case{In: strings.Repeat("a", n) + " 1", Kind: "hugetok"})
+					case 1:
+						emit(core.Case{In: "1 /*" + strings.Repeat("c", n) + "*/ 2", Kind: "hugetok"})
+					case 2:
+						emit(core.Case{In: "x '" + strings.Repeat("s", n) + "' y", Kind: "hugetok"})
+					default:
+						emit(core.Case{In: "1" + strings.Repeat(" ", n) + "2", Kind: "hugetok"})
+					}
+				}
+				return
+			}
+			sqlGen(w, u, emit)
+		},
 		One: func(w *core.Worker, c core.Case) {
 			s := c.In
-			if len(s) > 1<<17 {
+			if len(s) > 1<<19 && c.Kind != "hugetok" {
 				return
 			}
 			w.Eval(1)
 			nt := false
-			for _, m := range sqlModes {
+			modes := sqlModes
+			if c.Kind == "hugetok" {
+				modes = sqlModes[:2]
+			}
+			for _, m := range modes {
 				tr := li.VerifSQLTokens(s, m)
 				if msg := checkSQLTrace(s, &tr); msg != "" {
 					w.Violate("trace-invariant", "mode "+modeName(m)+": "+msg+"\n"+dumpSQLTrace(&tr))
@@ -329,6 +359,7 @@ var c08Quick = []Mix{
 	{Gen: "novel", Dict: "sqlext", N: 200000},
 	{Gen: "wl", N: 200000},
 	{Gen: "g03", N: 150000},
+	{Gen: "scale1", N: 288 << 10},
 }
 var c08Thorough = []Mix{
 	{Gen: "corpus"}, {Gen: "trunc"}, {Gen: "bytes"}, {Gen: "padded", N: 1},
@@ -340,6 +371,7 @@ var c08Thorough = []Mix{
 	{Gen: "novel", Dict: "sqlext", N: 2000000},
 	{Gen: "wl", N: 2000000},
 	{Gen: "g03", N: 2000000},
+	{Gen: "scale1", N: 288 << 10}, {Gen: "scale", N: 70000},
 }
 
 // C08 — verdict and fingerprint are mutually consistent.
@@ -364,6 +396,14 @@ func c08() *core.Check {
 		One: func(w *core.Worker, c core.Case) {
 			s := c.In
 			w.Eval(1)
+			if len(s) <= 4096 {
+				// the same text in the opposite letter case first (answer ignored): a
+				// memo keyed by case-folded text hands its answer to this input, which
+				// shows wherever SQL itself is case-sensitive (\N, dollar tags, q-quotes)
+				if tw := swapASCIICase(s); tw != s {
+					li.IsSQLi(tw)
+				}
+			}
 			b, f := li.IsSQLi(s)
 			if len(s) >= 64 {
 				// asked again at once: the pair must be the same pair (a memo for
@@ -496,7 +536,7 @@ func c12() *core.Check {
 		},
 		One: func(w *core.Worker, c core.Case) {
 			s := c.In
-			if len(s) > 1<<17 {
+			if len(s) > 1<<19 {
 				return
 			}
 			w.Eval(1)
@@ -675,4 +715,19 @@ func genFlood(w *core.Worker, u core.Unit, emit func(core.Case)) {
 		}
 		emit(core.Case{In: in, Kind: "flood", A: exps[ti].v, S: exps[ti].fp})
 	}
+}
+
+func swapASCIICase(s string) string {
+	b := []byte(s)
+	ch := false
+	for i, c := range b {
+		if c >= 'a' && c <= 'z' || c >= 'A' && c <= 'Z' {
+			b[i] = c ^ 0x20
+			ch = true
+		}
+	}
+	if !ch {
+		return s
+	}
+	return string(b)
 }
